@@ -81,3 +81,18 @@ Definition drained (o : ost) : bool :=
   | [], [], [], [] => true
   | _, _, _, _ => false
   end.
+
+(* the part of a log before the worker ended *)
+Fixpoint before_exit (es : list oev) : list oev :=
+  match es with
+  | [] => []
+  | OExit :: _ => []
+  | e :: r => e :: before_exit r
+  end.
+
+(* settled: no stream with a parsed preamble is waiting although the channel has room *)
+Definition settled (cap : nat) (o : ost) : bool :=
+  match ready (hs o) with
+  | [] => true
+  | _ :: _ => (cap <=? length (chan (hs o)))%nat
+  end.
